@@ -22,6 +22,10 @@ type Violation struct {
 	Detail   string   `json:"detail"`
 	Triggers []string `json:"triggers,omitempty"`
 	Replay   any      `json:"replay,omitempty"`
+	// Tainted: a bubble of an earlier case in this worker process had been abandoned by the real-time watchdog when this
+	// was reported; its goroutines go on running and share the process' pools with later cases. The driver confirms such a
+	// report in a fresh process before it believes it.
+	Tainted bool `json:"tainted,omitempty"`
 }
 
 // Finding is an entry of /verif/known_findings.json.
@@ -76,6 +80,7 @@ type Run struct {
 	shapes   map[uint64]struct{}
 	sets     map[string]map[string]struct{}
 	findings []Finding
+	tainted  bool // an abandoned bubble of an earlier case is still running in this process
 	start    time.Time
 	out      string
 	cur      *os.File
@@ -247,6 +252,9 @@ func (r *Run) Exhaustive(what string) {
 func (r *Run) Inconclusive(reason string) {
 	r.mu.Lock()
 	r.res.Inconclusive[reason]++
+	if strings.Contains(reason, "watchdog expired inside a bubble") {
+		r.tainted = true
+	}
 	r.mu.Unlock()
 }
 
@@ -278,7 +286,7 @@ func (r *Run) Fail(rule, caseID, detail string, triggers []string, replay any) {
 		if len(detail) > 4000 {
 			detail = detail[:4000] + "…"
 		}
-		r.res.Violations = append(r.res.Violations, Violation{Rule: rule, Case: caseID, Detail: detail, Triggers: triggers, Replay: replay})
+		r.res.Violations = append(r.res.Violations, Violation{Rule: rule, Case: caseID, Detail: detail, Triggers: triggers, Replay: replay, Tainted: r.tainted})
 	}
 }
 
